@@ -131,6 +131,22 @@ func VerifC09_ne_outtype() {
 	sym.Assert(a.defKey() != b.defKey(), "C09.ne.single-output-type")
 }
 
+// (type, identifier) pairs are hashed as pairs: an identifier that itself looks like "<type>::rest" must
+// not collide with another type's identifier "rest" (identifiers assembled from the type names)
+func VerifC09_ne_output_type_vs_identifier() {
+	a, b := base(), base()
+	prefixes := []string{"", "file::", "dir::", "docker::"}
+	t1, t2 := sym.Choice("t1", 3), sym.Choice("t2", 3)
+	id1 := prefixes[sym.Choice("p1", 4)] + sym.StringNAlpha("x1", 2, "a:")
+	id2 := prefixes[sym.Choice("p2", 4)] + sym.StringNAlpha("x2", 2, "a:")
+	sym.Assume(id1 != "" && id2 != "")
+	a.outTypes, a.outIDs = []int{t1}, []string{id1}
+	b.outTypes, b.outIDs = []int{t2}, []string{id2}
+	same := sym.And(t1 == t2, sym.StrEq(id1, id2))
+	sym.Reach("C09.ne.output-type-vs-identifier")
+	sym.Assert(sym.Iff(same, a.defKey() == b.defKey()), "C09.ne.output-type-and-identifier-hashed-as-a-pair")
+}
+
 func VerifC09_platform() {
 	// platform matters unless multiplatform-cache is set
 	a, b := base(), base()
